@@ -10,7 +10,7 @@ claim("C01", "exploration", "bounded exhaustive input enumeration on the real co
 claim("C02", "exploration", "bounded exhaustive input enumeration on the real code against an exact branch-and-bound optimiser (small-scope model checking)",
       "For every pairing on up to 10/12 positions, every chord diagram of up to 4/6 stems with stem lengths up to 3 and ladders up to 11/12 "
       "mutually crossing stems, the decoded optimal notation is proper, its objective equals the exact optimum over all proper level "
-      "assignments, and the three corollaries hold; the same for structures with 11-21 stems (hairpins around a small knot; a first-come-first-served baseline that is not an encoding of the structure is reported as such).",
+      "assignments, and the three corollaries hold; the same for structures with 11-21 stems (hairpins around a small knot; a first-come-first-served baseline that is not an encoding of the structure is reported as such); and for every knotted chord diagram of 2-3 (thorough 4) stems x lengths {1,2,3} asked AFTER other calls: an explicit conversion without / with a failing solver, the other notations and elements of the same object, sibling objects with the same crossing pattern under other stem lengths or gaps.",
       "Only the objective value is compared. Trusts CBC to solve the MILP it is given and the harness's branch-and-bound.", "DESIGN.md 3/C02")
 
 claim("C16", "exploration", "bounded exhaustive input enumeration on the real code against an independent backtracking enumeration of greedy-stable colourings",
@@ -18,7 +18,7 @@ claim("C16", "exploration", "bounded exhaustive input enumeration on the real co
       "members of all_dot_brackets equal, as a set, the greedy-stable proper colourings (product over components), without repetition, "
       "containing the optimal and FCFS notation; the same for every knotted pairing on up to 8/9 positions pushed through the 3D route (synthetic structures "
       "in 1-4 strands: Mapping2D3D.all_dot_brackets, adapter.extract_secondary_structure_from_external, adapter.main --all-dot-brackets) and for 6/15 corpus "
-      "structures through annotator.extract_secondary_structure(all_dot_brackets=True) and annotator.main -a.",
+      "structures through annotator.extract_secondary_structure(all_dot_brackets=True) and annotator.main -a; on the 3D route the list of the mapping's own BPSEQ is asked after and before the mapping's list, and the mapping's list twice.",
       "Groups of crossing stems have at most 8 members. Trusts the harness's colouring enumerator.", "DESIGN.md 3/C16")
 
 claim("C07", "exploration", "bounded exhaustive input enumeration on the real code against an independent element decomposition (small-scope model checking)",
@@ -31,20 +31,20 @@ claim("C12", "model_checking", "explicit-state breadth-first search over call hi
       "All call sequences up to depth 4 (quick) / 8 (thorough) over 10 public operations on a graph of up to 3 live BpSeq objects, for every "
       "root pairing on up to 6/7 positions and small chord diagrams: every answer equals the answer of a fresh copy and no object in the graph "
       "ever changes; derivations equal their reference values; plus histories of depth 2/3 over the derivations on every chord diagram of 3-4 stems of "
-      "lengths 1-2 (derived objects as receivers).",
+      "lengths 1-2 (derived objects as receivers); plus twin objects - the same knotted pairing under other letters and under one more nucleotide - interleaved in one graph.",
       "State merging relies on the canonical form (entries, pairs, caches, aliasing) determining all futures; deepcopy is trusted.", "DESIGN.md 3/C12")
 
 claim("C13", "model_checking", "exhaustive environment-answer and fault-sequence exploration of the solver seam on the real code, each execution replayed",
       "All 21 solver configurations and all fault scripts of length <=2/3 (3 only up to 9 positions) over 7 solver behaviours, on every knotted pairing on up to 8/10 "
       "positions and chord diagrams of up to 3/4 stems: the conversion never raises, is lossless, equals FCFS whenever no optimum was "
-      "delivered and is optimal otherwise (also for sequences over letters other than ACGU); BpSeq.fcfs itself is compared with the reference first-come-first-served assignment.",
+      "delivered and is optimal otherwise (also for sequences over letters other than ACGU); BpSeq.fcfs itself is compared with the reference first-come-first-served assignment; after every fault script the object is asked for its dot_bracket, which must be optimal.",
       "The solver is substituted at pulp module seams (pulp.HiGHS_CMD, pulp.LpSolverDefault, explicit argument); HiGHS itself is absent.", "DESIGN.md 3/C13")
 
 claim("C14", "model_checking", "deviation-bounded exploration of set-iteration orders through a module seam, bound to real interpreters by a cross-process hash-seed battery",
       "Every alternative iteration order (d<=1 quick, d<=2 thorough) of every seed-dependent set iterated by rnapolis.common/tertiary while "
       "producing the 2D outputs is executed; and a battery of SHA-256 digests of all library and CLI outputs on a fixed input list is "
       "compared across fresh interpreters with PYTHONHASHSEED in {0,1,2,3,random} (quick) / {0..15,random,random} (thorough) and across "
-      "repeated in-process calls and in reversed processing order; inputs include generated structures whose residues fit several bases equally well. "
+      "repeated in-process calls, in reversed processing order and - for the 2D part - in 8 slices run in interpreters of their own (another history of earlier conversions); inputs include generated structures whose residues fit several bases equally well. "
       "A violation is reported only when two real runs differ.",
       "Hash seeds are a finite list; set displays bypass the seam (listed by an AST pass); KD-tree pair sets contain int tuples whose order does not depend on the seed.",
       "DESIGN.md 3/C14")
@@ -65,7 +65,7 @@ claim("C09", "model_checking", "transition-system closure (BFS) over the real wr
       "From every start table within 2 field deviations (thorough: 3 over layout-critical fields) of the base table, in both start formats, all chains of "
       "write_pdb/parse_pdb_atoms/write_cif/parse_cif_atoms up to depth 2 (quick) / 3 (thorough) reach only states whose PDB view equals the start table; "
       "every written PDB text obeys the 80-column layout, MODEL/ENDMDL bracketing and TER-after-every-chain; start tables include model numbers up to 9999 and, "
-      "through splitter.main, mmCIF input whose label ids differ from the author ids; a blank chain identifier is a member of the PDB-start tables and TER columns are checked strictly.",
+      "through splitter.main, mmCIF input whose label ids differ from the author ids; a blank chain identifier is a member of the PDB-start tables and TER columns are checked strictly; single-chain tables (with a second model: NMR layout) and pre-2008 atom names (O3*, C5M) are members.",
       "Independent emitters and column reader in mc/enumio.py; values are within PDB field widths.", "DESIGN.md 3/C09")
 
 claim("C10", "exploration", "exhaustive enumeration of a finite product of atom tables on the real code against an independent fit/feasibility/renaming oracle",
